@@ -8,7 +8,8 @@ def classify(case):
 SPEC = dict(
     prop="C26",
     gens=[dict(name="Endpoints", cmd=["go", "run", "-C", "translators", ".", "endpoints"],
-               what="every &Command{Path/PathPrefix, GET/PUT/POST, ReadAccess, WriteAccess} literal registered in the "
+               what="noticeReadInterfaces of daemon/api_notices.go (keys resolved from overlord/state/notices.go) and "
+                    "every &Command{Path/PathPrefix, GET/PUT/POST, ReadAccess, WriteAccess} literal registered in the "
                     "`api` list of daemon/api.go, with checker types, polkit action strings and interface names")],
     drivers=[
         dict(name="serve", kind="test", pkg="./daemon", run="TestVerifC26",
@@ -38,6 +39,7 @@ SPEC = dict(
           "plug / slot NAMES varied independently of the interface (plug or slot named like a listed interface while the "
           "interface is `content`; genuine connections with arbitrary names). POLKIT-ACTION block (exhaustive): every "
           "endpoint x verb, plain user, polkit granting exactly one action. "
+          "attachparse: attach then parse back on 11 kinds of address x 10 interface strings (incl. the refutation witnesses), first and second attach. viewable: the real noticeTypesViewableBySnap on 3 socket kinds x 7 attachment lists x 32 type lists. snapctl: the real runSnapctl behind the real ServeHTTP with ctlcmd.Run recorded (was it called, with which uid) on every generated address. "
           "cred/parse/attach: (&ucrednet{..}).String() parsed back for boundary and random pid/uid/socket; "
           "ucrednetGetWithInterfaces and ucrednetAttachInterface on mutated credential strings, compared with the model. "
           "Non-trivial = handler ran, or a credentialed caller was denied."),
@@ -47,10 +49,12 @@ SPEC = dict(
         "hand-written model coq/models/Access.v of daemon/ucrednet.go, daemon/access.go and the dispatch part of Command.ServeHTTP, tied by the differential run (harness/overlay/daemon/zz_verif_c26_test.go)",
         "the pinned policy table in coq/models/Access.v (path -> weakest admissible level for GET and for PUT/POST): hand-written, pinned from the endpoint table of the tree the check was built on; the theorems show the regenerated table is at least as strict",
         "Go regexp (raddrRegexp) is modelled by a hand-written single-pass matcher; strconv.ParseInt/ParseUint by Coq's decimal parser with explicit 32-bit ranges; both tied by the parse/cred cases",
+        "the hand-written spec_notice_ifaces table (notice type -> interfaces) in coq/models/Access.v, pinned like the policy",
         "modelled, not verified: userFromRequest/auth.CheckMacaroon (a boolean `user present`), polkit (an answer per action id), cgroup.SnapNameFromPid (an optional name), ifacestate.ConnectionStates (a list of plug snap, interface, undesired, hotplug-gone); gorilla/mux routing is outside the model (the driver calls Command.ServeHTTP directly)",
     ],
     assumptions=[
-        "PARTIAL: C26_attach_roundtrip_partial / C26_attach_preserves_creds prove that attaching interfaces preserves pid, uid and socket and give the interface list for a fresh address and for an already attached name; the exact list after attaching a new name to a non-empty list is compared by the driver, not proved.",
+        "the attach/parse round trip is proved in full for interface strings without `;` (C26_attach_roundtrip, with & inside the value accounted for); the unguarded statements (socket path with `;`, interface with `;`) are refuted by witnesses that the driver replays on the real code on every run (C26_roundtrip_unguarded_refuted); such strings cannot occur in snapd (listener's own socket path, interface names [a-z0-9-]+)",
+        "C26_notices_types_need_connection covers the type filter noticeTypesViewableBySnap only; the per-user filtering of notices (user-id / users filters, noticeViewableByUser) is handler logic outside this property (C08)",
         "dirs.SnapdSocket = /run/snapd.socket and dirs.SnapSocket = /run/snapd-snap.socket (default root directory); only their being different matters to the theorems",
         "connection references in state are well formed (interfaces.ParseConnRef does not fail) and ifacestate.ConnectionStates does not return an error; both error paths deny access in the code; a cgroup lookup that succeeds with an empty snap name is not generated",
         "the round trip is stated for real peers: 0 < pid < 2^31, uid != 2^32-1, socket path without `;` (the listener's own address)",
